@@ -4,6 +4,7 @@ package main
 
 import (
 	"fmt"
+	"hash/fnv"
 	"go/token"
 	"go/types"
 	"os"
@@ -29,6 +30,8 @@ type Engine struct {
 	wa                 *writeAnalyzer
 	tags               map[string]int
 	tagNames           []string
+	tagOwner           map[int]string
+	funcOwner          map[int]*ssa.Function
 	funcIDs            map[*ssa.Function]int
 	bindingErrors      []string
 	implCache          map[string][]*ssa.Function
@@ -130,6 +133,9 @@ func NewEngine(repo, verifDir string) (*Engine, error) {
 		}
 		eng.funcByKey[key] = fn
 	}
+	// axioms and lemma statements are compiled once, before any function, so that their bound-variable names never
+	// coincide with those of a function's obligations (resetNaming starts those at a high fixed base)
+	eng.axiomTerms()
 	return eng, nil
 }
 
@@ -163,22 +169,56 @@ func (eng *Engine) contractForInvoke(c *ssa.CallCommon) *FuncContract {
 	return eng.contracts.Funcs[shortName(c.Method.FullName())]
 }
 
+// tagID: a number for a dynamic type that depends on the type alone (a stable hash, collisions resolved by probing),
+// so that the text of an obligation does not depend on which functions were verified before it.
 func (eng *Engine) tagID(t types.Type) int {
 	k := typeStr(t)
 	if id, ok := eng.tags[k]; ok {
 		return id
 	}
-	id := len(eng.tags) + 1
+	h := fnv.New32a()
+	h.Write([]byte(k))
+	id := int(h.Sum32()%1000000007) + 1
+	if eng.tagOwner == nil {
+		eng.tagOwner = map[int]string{}
+	}
+	for {
+		if o, used := eng.tagOwner[id]; !used || o == k {
+			break
+		}
+		id++
+	}
+	eng.tagOwner[id] = k
 	eng.tags[k] = id
 	eng.tagNames = append(eng.tagNames, k)
 	return id
+}
+
+// resetNaming: every function (and lemma) is verified with the same fresh-name counters, so that its obligations are
+// the same text whatever was verified before it in the same process (solver behaviour depends on symbol names).
+func resetNaming() {
+	TS.fresh = map[string]int{"bv": 1000000}
+	heapBaseCounter = 0
+	heapConsts = map[*Term]heapConstInfo{}
 }
 
 func (eng *Engine) funcID(f *ssa.Function) int {
 	if id, ok := eng.funcIDs[f]; ok {
 		return id
 	}
-	id := len(eng.funcIDs) + 1
+	h := fnv.New32a()
+	h.Write([]byte(f.String()))
+	id := int(h.Sum32()%1000000007) + 1
+	if eng.funcOwner == nil {
+		eng.funcOwner = map[int]*ssa.Function{}
+	}
+	for {
+		if o, used := eng.funcOwner[id]; !used || o == f {
+			break
+		}
+		id++
+	}
+	eng.funcOwner[id] = f
 	eng.funcIDs[f] = id
 	return id
 }
@@ -636,6 +676,6 @@ func dedup(xs []string) []string {
 }
 
 func newExec(eng *Engine, fn *ssa.Function, c *FuncContract) *Exec {
-	return &Exec{usedInv: map[string]bool{}, specMemo: map[string]Value{}, eng: eng, topFn: fn, topC: c, assumeSeen: map[int]bool{}, warnSeen: map[string]bool{}, nameCount: map[string]int{},
+	return &Exec{hc: heapConsts, usedInv: map[string]bool{}, specMemo: map[string]Value{}, eng: eng, topFn: fn, topC: c, assumeSeen: map[int]bool{}, warnSeen: map[string]bool{}, nameCount: map[string]int{},
 		abstracted: map[string]bool{}, inlined: map[string]bool{}, usedContr: map[string]bool{}, assumedTerm: map[string]bool{}, assertHit: map[int]bool{}, pointSetHit: map[int]bool{}, budget: 6000}
 }
